@@ -572,8 +572,10 @@ def fit_case(draw):
         nd = draw(st.integers(1, 3))
         basis = spread_rows(draw(gen.matrix(nb, p, kind='pos')), m1)
         data = spread_rows(draw(gen.matrix(nd, p, kind='pos')), m2)
-        where = draw(st.sampled_from(['model-vs-data', 'model-vs-data', 'within-model']))
-        if nb < 2:
+        where = draw(st.sampled_from(['model-vs-data', 'model-vs-data', 'within-model', 'within-data']))
+        if nb < 2 and where == 'within-model':
+            where = 'model-vs-data'
+        if nd < 2 and where == 'within-data':
             where = 'model-vs-data'
         return dict(mode=mode, fn=fn, method=method, n=n, m1=m1, m2=m2, basis=basis, data=data,
                     where=where, sigma=None)
@@ -631,6 +633,12 @@ def check_fit(case):
         if case['where'] == 'within-model':
             basis[1] = apply_mask([case['basis'][1]], m2)[0]
             data = apply_mask(case['data'], m1)
+        elif case['where'] == 'within-data':
+            # the data RDMs miss different entries (partial RDMs of different subjects), the model
+            # is complete: there is no common set of entries to fit on
+            basis = np.array(case['basis'], dtype=float)
+            data = apply_mask(case['data'], m1)
+            data[1] = apply_mask([case['data'][1]], m2)[0]
         else:
             data = apply_mask(case['data'], m2)
         model = ModelWeighted('m', RDMs(basis.copy()))
